@@ -149,8 +149,15 @@ def invariant_rules(run, F, E, decided=()):
             else:
                 unknown = 'operator %s on a storage unit' % x['op']
         if unknown:
-            if (cap, fn.m, len(fn.params)) in decided:
+            if (cap, fn.m if fn.kind != 'ctor' else 'copy constructor', len(fn.params)) in decided or (cap, fn.m, len(fn.params)) in decided:
                 run.note('C20.b steps aside for %s (decided by C20.e): %s' % (fn.short, unknown))
+                continue
+            # a non-public helper all of whose callers are operations C20.e decided (it was interpreted as part of them)
+            from lint import anchors as _anc
+            callers = [F.fn(cid) for cid in E.callers().get(fn.id, ())]
+            if callers and _anc.is_internal_helper(F, fn) and all(
+                    g is not None and g.tkey == fn.tkey and ((cap, g.m if g.kind != 'ctor' else 'copy constructor', len(g.params)) in decided) for g in callers):
+                run.note('C20.b steps aside for helper %s (its callers are decided by C20.e): %s' % (fn.short, unknown))
                 continue
             raise AnalysisBroken('BitArrayT::%s: %s' % (fn.m, unknown))
         if not effects_on_last:
@@ -488,7 +495,9 @@ def refinement(run, F):
     decided = set()
     for fn in F.find('BitArrayT'):
         cap, units = capacity_of(F, fn)
-        if cap is None or fn.kind in ('ctor', 'dtor'):
+        is_copy = fn.kind == 'ctor' and fn.d.get('ctorkind') in ('copy', 'move') and fn.body is not None and not fn.d.get('implicit') \
+            and not fn.d.get('defaulted')
+        if cap is None or fn.kind == 'dtor' or (fn.kind == 'ctor' and not is_copy):
             continue
         ext = storage_extent(F, fn)
 
@@ -547,6 +556,33 @@ def refinement(run, F):
                     if not good and bad is None:
                         bad = {'returns': r, 'bits known zero': len(zero_bits & valid), 'of': cap, 'a group known non-zero': some_nonzero}
                 what = 'empty(): true exactly when every valid bit is zero (%d decision paths over the unit zero tests)' % len(paths)
+            elif is_copy or (fn.m == 'operator=' and fn.body is not None and not fn.d.get('implicit') and not fn.d.get('defaulted')):
+                # a hand-written copy: afterwards this array is the same set as the source (bit p == source bit p, padding zero),
+                # whatever it held before and however the copy is spelled (member initialiser, loop, helper, masking of the tail)
+                other = fresh('o')
+                if fn.kind == 'ctor':
+                    inits = [i for i in fn.inits if i.get('name') == '_storage' and i.get('written')]
+                    if inits:
+                        raise bitprov.Refuse('copy constructor with a member initialiser for _storage')       # the shape rule C17.b reads those
+                    data = [(0,) * W for _ in range(ext)]      # `_storage[UNIT_COUNT] {}`: zero-initialised before the body runs
+                    nsdmi = [f for f in (F.rec_by_name.get(fn.cls) or {}).get('fields', []) if f.get('n') == '_storage' and f.get('nsdmi')]
+                    if not nsdmi:
+                        data = [tuple(('u', by * 8 + k) for k in range(8)) + (0,) * (W - 8) for by in range(ext)]
+                else:
+                    data = fresh('s')
+                env_this = {'_storage': data}
+                p0 = fn.params[0]
+                env = {p0['id']: ['ref', ('obj', {'_storage': other}), None]}
+                try:
+                    I.stmt(fn.body, fn, env_this, env, 0)
+                except bitprov._Ret:
+                    pass
+                cases += 1
+                for p in range(ext * 8):
+                    want = ('o', p) if p < cap else 0
+                    if bit(data, p) != want and bad is None:
+                        bad = {'storage bit': p, 'holds': str(bit(data, p)), 'expected': str(want)}
+                what = '%s: afterwards bit p == source bit p for every p < %d, padding 0' % ('copy constructor' if fn.kind == 'ctor' else 'operator=', cap)
             elif fn.m == 'operator&=':
                 data = fresh('s')
                 other = fresh('o')
@@ -577,9 +613,9 @@ def refinement(run, F):
                 continue
             raise AnalysisBroken('BitArrayT<%s>::%s is outside the bit-provenance fragment: %s' % (cap, fn.m, e))
         run.ob('C20.e', 'BitArrayT<%d>::%s' % (cap, what), bad is None, where=fn.pat, detail=bad,
-               key='BitArrayT::%s%s does not refine the set-of-integers model' % (fn.m, '(i)' if fn.params and fn.m != 'operator&=' else '()'))
+               key='BitArrayT::%s%s does not refine the set-of-integers model' % (fn.m if fn.kind != 'ctor' else 'copy constructor', '(i)' if fn.params and fn.m not in ('operator&=', 'operator=') and fn.kind != 'ctor' else '()'))
         run.count('bit-provenance cases', cases)
-        decided.add((cap, fn.m, len(fn.params)))
+        decided.add((cap, fn.m if fn.kind != 'ctor' else 'copy constructor', len(fn.params)))
     return decided
 
 
